@@ -111,7 +111,7 @@ CHECKS = {
     ),
     "C04": dict(
         test="TestC04", level="fault_enumeration", shards=16, cmds=["mkwork", "mkrestart"], engine="crash-engine",
-        tiers=dict(quick=dict(checks=1, timeout=900), thorough=dict(checks=5, timeout=3400, env=dict(VERIF_MAXOPS=9, VERIF_MAXVARIANTS=12))),
+        tiers=dict(quick=dict(checks=1, timeout=900), thorough=dict(checks=3, timeout=3400, env=dict(VERIF_MAXOPS=9, VERIF_MAXVARIANTS=12))),
         technique="crash-point x power-loss-variant enumeration over strace-recorded runs of generated histories",
         env=dict(VERIF_SHRINK="5s"),
         rule="strace-recorded generated histories (as C01) x every syscall-prefix crash point x a bounded set of "
@@ -127,7 +127,7 @@ CHECKS = {
     "C06": dict(
         fuzz=dict(target="FuzzC06", seconds=600),
         test="TestC06", level="exploration", shards=16, cmds=["mkwork", "mkrestart"], engine="crash-engine",
-        tiers=dict(quick=dict(checks=2, timeout=900), thorough=dict(checks=40, timeout=3400, env=dict(VERIF_MUTATIONS=30))),
+        tiers=dict(quick=dict(checks=2, timeout=900), thorough=dict(checks=20, timeout=3400, env=dict(VERIF_MUTATIONS=30))),
         technique="structured mutation fuzzing of real WAL files, fresh-process replay, model oracle",
         env=dict(VERIF_SHRINK="5s"),
         rule="a valid WAL is produced by really executing a generated history with repeated intervals (state: WAL synced, primary files not yet "
@@ -142,7 +142,7 @@ CHECKS = {
     ),
     "C35": dict(
         test="TestC35", level="exploration", shards=16, cmds=["mkwork", "mkrestart"], engine="crash-engine",
-        tiers=dict(quick=dict(checks=2, timeout=900), thorough=dict(checks=60, timeout=3400, env=dict(VERIF_MAXOPS=12))),
+        tiers=dict(quick=dict(checks=2, timeout=900), thorough=dict(checks=20, timeout=3400, env=dict(VERIF_MAXOPS=12))),
         technique="property-based testing over generated histories x every shutdown position, fresh-process restart, differential + model oracle",
         env=dict(VERIF_SHRINK="5s"),
         rule="rapid histories (fixed/variable buckets, repeated intervals, multi-bucket requests) run by a real server with "
@@ -155,7 +155,7 @@ CHECKS = {
     ),
     "C34": dict(
         test="TestC34", level="fault_enumeration", shards=16, cmds=["mkwork", "mkrestart"], engine="crash-engine",
-        tiers=dict(quick=dict(checks=1, timeout=900, env=dict(VERIF_L1POINTS=3)), thorough=dict(checks=6, timeout=3400, env=dict(VERIF_MAXOPS=8, VERIF_L1POINTS=12))),
+        tiers=dict(quick=dict(checks=1, timeout=900, env=dict(VERIF_L1POINTS=3)), thorough=dict(checks=3, timeout=3400, env=dict(VERIF_MAXOPS=8, VERIF_L1POINTS=8))),
         technique="two-level crash-point enumeration (crash during the recovery of a crash) over strace-recorded runs",
         env=dict(VERIF_SHRINK="5s"),
         rule="first level: crash states of strace-recorded generated histories at points where replay has work (plus "
@@ -400,7 +400,7 @@ CHECKS = {
     ),
     "C26": dict(
         test="TestC26", level="exploration", shards=16, race=True,
-        tiers=dict(quick=dict(checks=8, timeout=900), thorough=dict(checks=400, timeout=3400)),
+        tiers=dict(quick=dict(checks=8, timeout=900), thorough=dict(checks=150, timeout=3400)),
         rule="rapid concurrent programs on the real GRPCReplicationServer + Sender with fake stream objects (peer address in "
              "the context; Send can fail on demand = replica gone, or block = replica not reading): 1-6 streams opening and "
              "closing at generated message indices while the sender fans out 50-400 tagged messages (1200-2000 with a slow "
@@ -413,7 +413,7 @@ CHECKS = {
     ),
     "C17": dict(
         test="TestC17", level="exploration", shards=16, race=True,
-        tiers=dict(quick=dict(checks=8, steps=30, timeout=900), thorough=dict(checks=300, steps=40, timeout=3400)),
+        tiers=dict(quick=dict(checks=8, steps=30, timeout=900), thorough=dict(checks=100, steps=40, timeout=3400)),
         rule="(sequential) rapid state-machine histories over 3 symbols x 2 timeframes x 2 attribute groups: create "
              "(3 schemas, fixed/variable), write (existing year, new year, or first write that creates the bucket), write with "
              "another schema (must be rejected), destroy, recreate, reopen of the server; after EVERY step the live catalog "
